@@ -624,6 +624,30 @@ def swap_equality_operands(sources: Dict[str, str]) -> Dict[str, str]:
     return out
 
 
+def merge_nested_ifs(sources: Dict[str, str]) -> Dict[str, str]:
+    """`if a:` whose whole body is `if b: X` (no else anywhere) becomes `if a and b: X`; and every `if a and b: X` without
+    else that was not produced this way is split into nested ifs."""
+    out = {}
+    for p, s in sources.items():
+        tree = ast.parse(s)
+        merged = set()
+        for n in ast.walk(tree):
+            if isinstance(n, ast.If) and not n.orelse and len(n.body) == 1 and isinstance(n.body[0], ast.If) and not n.body[0].orelse:
+                inner = n.body[0]
+                n.test = ast.BoolOp(op=ast.And(), values=[n.test, inner.test])
+                n.body = inner.body
+                merged.add(id(n))
+        for n in ast.walk(tree):
+            if isinstance(n, ast.If) and id(n) not in merged and not n.orelse and isinstance(n.test, ast.BoolOp) and isinstance(n.test.op, ast.And) and len(n.test.values) == 2:
+                a, b = n.test.values
+                inner = ast.If(test=b, body=n.body, orelse=[])
+                ast.copy_location(inner, n)
+                n.test, n.body = a, [inner]
+        ast.fix_missing_locations(tree)
+        out[p] = ast.unparse(tree)
+    return out
+
+
 def rename_all_locals(sources: Dict[str, str]) -> Dict[str, str]:
     out = {}
     for p, s in sources.items():
@@ -699,6 +723,8 @@ def _worker(args):
             overlay = de_morgan_tests(sources)
         elif m.old == "<swap-equality-operands>":
             overlay = swap_equality_operands(sources)
+        elif m.old == "<merge-nested-ifs>":
+            overlay = merge_nested_ifs(sources)
         elif m.old == "<keywords-at-call-sites>":
             overlay = keywords_at_call_sites(sources)
         elif m.old == "<swap-if-else>":
@@ -749,6 +775,7 @@ GENERIC = [
     M("every non-trivial return value goes through a temporary (t = E; return t)", "", None, "<temp-before-return>", "", kind="equiv"),
     M("De Morgan: every boolean if / while / conditional test rewritten as the negation of the dual", "", None, "<de-morgan-tests>", "", kind="equiv"),
     M("operands of every == / != comparison swapped", "", None, "<swap-equality-operands>", "", kind="equiv"),
+    M("nested ifs merged into `and` and two-operand `and` guards split into nested ifs", "", None, "<merge-nested-ifs>", "", kind="equiv"),
     M("methods of every class in reverse source order", "", None, "<reverse-methods>", "", kind="equiv"),
     M("swap the branches of every plain if/else under the negated test", "", None, "<swap-if-else>", "", kind="equiv"),
     M("annotate every local that is assigned once (x = v  ->  x: object = v)", "", None, "<annotate-single-assignments>", "", kind="equiv"),
